@@ -2,6 +2,7 @@ package fw
 
 import (
 	"fmt"
+	"runtime"
 	"runtime/debug"
 	"runtime/metrics"
 	"strings"
@@ -27,6 +28,16 @@ const (
 )
 
 var allocSample = []metrics.Sample{{Name: "/gc/heap/allocs:bytes"}}
+
+var cycleSample = []metrics.Sample{{Name: "/gc/cycles/total:gc-cycles"}}
+
+func gcCycles() uint64 {
+	metrics.Read(cycleSample)
+	if cycleSample[0].Value.Kind() == metrics.KindUint64 {
+		return cycleSample[0].Value.Uint64()
+	}
+	return 0
+}
 
 func allocNow() uint64 {
 	metrics.Read(allocSample)
@@ -83,10 +94,29 @@ func Guard(inputLen int, f func()) Verdict {
 			return Verdict{Class: "panic", Panic: d.val, Stack: d.stack, Alloc: used}
 		}
 		if used > budget {
+			// The runtime's allocation counter is exact only at certain points: what the other processors allocated
+			// earlier (in partly filled spans) is added when a garbage collection flushes their caches, which may
+			// happen inside this window. A call that returned is therefore measured again, from a clean start
+			// (after a collection), up to three times; it is over budget only if every measurement says so.
+			for i := 0; i < 3; i++ {
+				runtime.GC()
+				cyc, a := gcCycles(), allocNow()
+				if p, _, _ := Recover(f); p {
+					break
+				}
+				u := allocNow() - a
+				if gcCycles() == cyc && u <= budget {
+					return Verdict{Alloc: u}
+				}
+				if gcCycles() == cyc && u < used {
+					used = u
+				}
+			}
 			return Verdict{Class: "alloc", Alloc: used}
 		}
 		return Verdict{Alloc: used}
 	}
+	rebased := false
 	// fast path: most calls return within microseconds
 	t := time.NewTimer(2 * time.Millisecond)
 	select {
@@ -104,7 +134,14 @@ func Guard(inputLen int, f func()) Verdict {
 			return finish(d)
 		case <-tick.C:
 			if used := allocNow() - a0; used > budget {
-				return Verdict{Class: "alloc", Alloc: used, CPU: cpuNow() - c0}
+				if rebased {
+					return Verdict{Class: "alloc", Alloc: used, CPU: cpuNow() - c0}
+				}
+				// first time over budget while still running: restart the count from a clean point (after a
+				// collection has flushed every processor's statistics); a runaway goes over budget again from there
+				rebased = true
+				runtime.GC()
+				a0 = allocNow()
 			}
 			if cpu := cpuNow() - c0; cpu > CPUBudget {
 				return Verdict{Class: "cpu", CPU: cpu, Alloc: allocNow() - a0}
